@@ -407,6 +407,26 @@ pub fn run(args: &Args) -> i32 {
     });
     ctx.stats.merge(s);
     ctx.bound("window_edge_comment_plus_garbage", json!(edge));
+    // maximal variable-length fields and a larger entry count
+    {
+        let big_name: Vec<u8> = (0..65535usize).map(|i| b"abcdefghij/"[i % 11]).collect();
+        let mut st = Stats::default();
+        let specs: Vec<Spec> = vec![
+            Spec { entries: vec![ESpec { name: big_name.clone(), ..red[1].clone() }, red[0].clone()], ..Default::default() },
+            Spec { entries: vec![ESpec { comment: vec![b'k'; 65535], ..red[1].clone() }, red[3].clone()], comment: b"x".to_vec(), ..Default::default() },
+            Spec { entries: vec![ESpec { central_extra: extra_block(0x7777, &vec![7u8; 65531]), ..red[0].clone() }, red[2].clone()], ..Default::default() },
+            Spec { entries: vec![ESpec { local_extra: extra_block(0x6666, &vec![6u8; 65531]), ..red[1].clone() }, red[2].clone()], ..Default::default() },
+            Spec { entries: vec![ESpec { name: big_name.clone(), comment: vec![0x80; 65535], central_extra: extra_block(0x7777, &vec![7u8; 65531]), local_extra: extra_block(0x6666, &vec![6u8; 60000]), zip64_central: 0, ..red[6].clone() }], prefix: vec![0x5a; 9], ..Default::default() },
+            Spec { entries: (0..300).map(|i| ESpec { name: format!("many/{i:03}").into_bytes(), ..red[i % 8].clone() }).collect(), comment: b"three hundred".to_vec(), ..Default::default() },
+            Spec { entries: (0..300).map(|i| ESpec { name: format!("m{}", i % 7).into_bytes(), ..red[(i * 3) % 8].clone() }).collect(), cd_order: Some((0..300).rev().collect()), ..Default::default() },
+        ];
+        for (k, spec) in specs.iter().enumerate() {
+            let (bytes, lay) = build(spec);
+            check_archive(spec, &bytes, &lay, &mut st, (6 << 40) + k as u64, "big-fields");
+        }
+        ctx.stats.merge(st);
+        ctx.bound("big_fields", json!("65 535-byte name / file comment / central extra / local extra (singly and together); 300 entries; 300 entries with 7 repeated names in reversed directory order"));
+    }
     // zero entries
     let mut st0 = Stats::default();
     for (ai, a) in av_full.iter().enumerate() {
